@@ -326,6 +326,8 @@ class EqMethod(MethodDescriptor):
 
     @staticmethod
     def eq(self, other: Any) -> bool:
+        if self is other:
+            return True
         if not isinstance(other, self.__class__):
             return False
         for attr, attr_spec in self.__spec_class__.attrs.items():
@@ -333,6 +335,8 @@ class EqMethod(MethodDescriptor):
                 continue
             value_self = getattr(self, attr, MISSING)
             value_other = getattr(other, attr, MISSING)
+            if value_self is value_other:
+                continue
             if inspect.ismethod(value_self) and inspect.ismethod(value_other):
                 if value_self.__func__ is not value_other.__func__:
                     return False
